@@ -255,7 +255,7 @@ theorem asyncStart_inv (m : Machine) (env : GEnv) (hwf : WF m.root) (hi : InitOK
           { ({} : St) with status := "running" })).err with
       | none => rfl
       | some _ => simp [hh] at herr
-    have := asyncDrain_inv m env hwf hi hsel asyncFuel _ ⟨ht, hnone⟩
+    have := asyncDrain_inv m env hwf hi hsel (asyncFuel m) _ ⟨ht, hnone⟩
     exact ⟨this.legal, fun _ => this.noerr⟩
 
 theorem asyncSend_rinv (m : Machine) (env : GEnv) (e : Ev) (hwf : WF m.root) (hi : InitOK m.root)
